@@ -4,7 +4,7 @@ import re as _re
 
 from .. import specs
 from ..absint import Lin, Lst, ObjVal, PyRaise, Str, Tup, label_var
-from ..tables import (Atoms, Outcome, TableRun, build_tier, compare_outcomes, declare_tier, entry_equal, num_equal,
+from ..tables import (Atoms, DontCare, Outcome, TableRun, build_tier, compare_outcomes, declare_tier, entry_equal, num_equal,
                       read_tier, run_code, run_spec, run_states, show)
 from . import common
 from .tgops import build_tg
@@ -184,8 +184,8 @@ def run(rep, tier):
             if len(gl) != len(wi) or (wi and not entry_equal(I, gl, wi)):
                 return "code %s, spec %s" % (show(got), show(want))
         return None
-    simple_table(rep, "Q-values", "PointTier.getValuesAtPoints", at, ["exact"],
-                 lambda I, mode: I.call_value(I.getattr(build_tier(I, "point", "T", pts, m, M), "getValuesAtPoints"), [Lst([Tup(list(r)) for r in data3]), False], {}),
+    simple_table(rep, "Q-values", "PointTier.getValuesAtPoints", at, ["exact", "default (= exact)"],
+                 lambda I, mode: I.call_value(I.getattr(build_tier(I, "point", "T", pts, m, M), "getValuesAtPoints"), [Lst([Tup(list(r)) for r in data3])] + ([False] if mode == "exact" else []), {}),
                  lambda O, mode: [next((row for row in data3 if O.eq(row[0], p[0])), ()) for p in pts],
                  "2 generic points x 2 time-sorted samples", vap_eq)
 
@@ -354,7 +354,7 @@ def validate_tables(rep, tier):
         cls = "IntervalTier" if kind == "interval" else "PointTier"
         first = ents[0][0]
         last = ents[-1][1] if kind == "interval" else ents[-1][0]
-        modes = ["valid", "min:=x", "max:=x", "tg-min:=x", "tg-max:=x", "swap-entries"]
+        modes = ["valid", "min:=x", "max:=x", "tg-min:=x", "tg-max:=x", "swap-entries"] + (["e1:=x", "s2:=x"] if kind == "interval" else ["t1:=x", "t2:=x"])
 
         def code(I, mode, kind=kind, ents=ents, m=m, M=M):
             t = build_tier(I, kind, "T", ents, m, M)
@@ -372,6 +372,14 @@ def validate_tables(rep, tier):
                 if "_entries" not in t.attrs:
                     raise common.Vanished("tier attribute _entries")
                 t.attrs["_entries"].items.reverse()
+            elif mode in ("e1:=x", "s2:=x", "t1:=x", "t2:=x"):
+                if "_entries" not in t.attrs:
+                    raise common.Vanished("tier attribute _entries")
+                which, field = {"e1:=x": (0, 1), "s2:=x": (1, 0), "t1:=x": (0, 0), "t2:=x": (1, 0)}[mode]
+                old = t.attrs["_entries"].items[which]
+                new_items = list(old.items)
+                new_items[field] = x
+                t.attrs["_entries"].items[which] = Tup(new_items, old.cls)
             I.prints = 0
             tv = I.truth(I.call_value(I.getattr(t, "validate"), ["silence"], {}))
             gv = I.truth(I.call_value(I.getattr(tg, "validate"), ["silence"], {}))
@@ -395,6 +403,19 @@ def validate_tables(rep, tier):
                 else:
                     tier_ok = False
                 tg_ok = False
+            elif mode == "e1:=x":
+                # a zero-length or inverted first interval, or one running into the second
+                tier_ok = tg_ok = O.lt(ents[0][0], x) and O.le(x, ents[1][0])
+            elif mode == "s2:=x":
+                tier_ok = tg_ok = O.le(ents[0][1], x) and O.lt(x, ents[1][1])
+            elif mode == "t1:=x":
+                if O.eq(x, ents[1][0]):
+                    raise DontCare("two points at one time: neither in nor out of order")
+                tier_ok = tg_ok = O.le(m, x) and O.lt(x, ents[1][0])
+            elif mode == "t2:=x":
+                if O.eq(x, ents[0][0]):
+                    raise DontCare("two points at one time: neither in nor out of order")
+                tier_ok = tg_ok = O.lt(ents[0][0], x) and O.le(x, M)
             return {"tier": tier_ok, "tg": tg_ok}
 
         def eq(I, got, want):
